@@ -302,7 +302,7 @@ fn pick_ids(rng: &mut Rng, ids: &[String], me: &str, max: usize) -> Vec<String> 
     }
     for _ in 0..rng.range(1, max) {
         let x = rng.pick(ids).clone();
-        if x != me || rng.chance(1, 10) {
+        if x != me || rng.chance(1, 40) {
             if !v.contains(&x) {
                 v.push(x);
             }
@@ -493,6 +493,9 @@ pub fn wild(rng: &mut Rng, o: &WildOpts) -> CmdSpec {
     let mut c = wild_cmd(rng, o, o.depth, "prog".into(), &Used::default());
     if rng.chance(1, 6) {
         c.term_width = Some(rng.below(120));
+    }
+    if rng.chance(15, 16) {
+        sanitize(&mut c);
     }
     c
 }
@@ -720,4 +723,142 @@ pub fn hostile_argv(rng: &mut Rng, root: &CmdSpec, max_tokens: usize) -> Vec<OsS
         out.push(os(&tok));
     }
     out
+}
+
+// ---------------------------------------------------------------- validity repair
+
+/// Pushes a random spec towards what clap's configuration checks accept (the gate remains the
+/// arbiter). Only removes/adjusts features; never adds behaviour the generator did not draw.
+pub fn sanitize(c: &mut CmdSpec) {
+    let has_version = c.version.is_some() || c.long_version.is_some();
+    if !has_version {
+        c.settings.retain(|s| *s != Setting::PropagateVersion);
+        if c.args.iter().any(|a| a.act() == Act::Version) {
+            c.version = Some("9.9.9".into());
+        }
+    }
+    let npos = c.args.iter().filter(|a| a.is_positional()).count();
+    let explicit = c.args.iter().filter(|a| a.is_positional() && a.index.is_some()).count();
+    let mut k = 0;
+    let mut seen_optional = false;
+    let allow_missing = c.has(Setting::AllowMissingPositional);
+    for a in c.args.iter_mut() {
+        let tv = a.takes_values();
+        if !tv {
+            a.hint = None;
+            a.hide_possible_values = false;
+            a.hide_default_value = false;
+            a.allow_hyphen = false;
+            a.allow_negative = false;
+            a.require_equals = false;
+            a.last = false;
+            a.ignore_case = false;
+            a.num_args = None;
+            a.value_names.clear();
+            a.delim = None;
+            a.terminator = None;
+            a.vp = None;
+            a.default_missing.clear();
+            a.defaults.clear();
+            a.trailing_var_arg = false;
+        }
+        if a.required {
+            a.required_unless_any.clear();
+            a.required_unless_all.clear();
+            a.required_if_eq_any.clear();
+            a.required_if_eq_all.clear();
+        }
+        if a.global {
+            a.required = false;
+        }
+        let me = a.id.clone();
+        a.requires.retain(|x| *x != me);
+        a.requires_ifs.retain(|(_, x)| *x != me);
+        a.conflicts.retain(|x| *x != me);
+        if tv {
+            if a.value_names.len() > 1 {
+                let n = a.value_names.len();
+                match a.num_args {
+                    Some((_, hi)) if hi >= n => {}
+                    _ => a.num_args = None,
+                }
+            }
+            if a.require_equals {
+                if let Some((lo, hi)) = a.num_args {
+                    if hi > 1 {
+                        a.num_args = Some((lo.min(1), 1));
+                    }
+                }
+                if a.value_names.len() > 1 {
+                    a.value_names.truncate(1);
+                }
+            }
+            if a.hint == Some(12) {
+                // CommandWithArguments: positional, multiple values, trailing_var_arg
+                a.hint = Some(1);
+            }
+        }
+        if a.is_positional() {
+            k += 1;
+            if explicit != npos {
+                a.index = None;
+            }
+            let is_last = k == npos;
+            if !is_last {
+                a.last = false;
+                a.trailing_var_arg = false;
+                if k + 1 != npos {
+                    if a.eff_num_args().1 > 1 {
+                        a.num_args = None;
+                        a.value_names.truncate(1);
+                    }
+                    if a.action == Some(Act::Append) {
+                        a.action = Some(Act::Set);
+                    }
+                }
+            }
+            if a.trailing_var_arg {
+                a.last = false;
+                if a.eff_num_args().1 <= 1 {
+                    a.num_args = Some((0, usize::MAX));
+                }
+            }
+            if !allow_missing {
+                if seen_optional && !a.last {
+                    a.required = false;
+                }
+                if !a.required {
+                    seen_optional = true;
+                }
+            }
+            if let Some((0, hi)) = a.num_args {
+                // num_args(0..) positionals are fine; (0,0) is not meaningful
+                if hi == 0 {
+                    a.num_args = None;
+                }
+            }
+        }
+    }
+    // a multi-valued positional that is second to last requires the last one to be `last` or required
+    if npos >= 2 {
+        let idxs: Vec<usize> = c.args.iter().enumerate().filter(|(_, a)| a.is_positional()).map(|(i, _)| i).collect();
+        let second = idxs[npos - 2];
+        let last = idxs[npos - 1];
+        let second_multi = c.args[second].eff_num_args().1 > 1 || c.args[second].action == Some(Act::Append);
+        if second_multi && !(c.args[last].last || c.args[last].required || c.args[second].terminator.is_some()) {
+            c.args[second].num_args = None;
+            c.args[second].value_names.truncate(1);
+            c.args[second].action = Some(Act::Set);
+        }
+        if c.args[second].eff_num_args().1 > 1 && c.args[last].eff_num_args().1 > 1 && c.args[last].num_args.is_some() {
+            c.args[last].num_args = None;
+            c.args[last].trailing_var_arg = false;
+        }
+    }
+    if c.args.iter().any(|a| a.is_positional() && a.last && a.required) && !c.subs.is_empty() {
+        c.set(Setting::SubcommandNegatesReqs);
+    }
+    for s in c.subs.iter_mut() {
+        sanitize(s);
+    }
 }
